@@ -239,7 +239,15 @@ def collect(
         )
     )
     new._cache.derived_from = table._cache.derived_from | {new._ast}
-    new._cache.partition_by = [preprocess_arg(col, new) for col in table._cache.partition_by]
+    if table._cache.partition_by:
+        # keep the grouping state (the UUIDs of the columns are preserved)
+        if hidden := [uid for uid in table._cache.partition_by if uid not in new._cache.cols]:
+            raise ValueError(
+                f"cannot collect a table grouped by the hidden column `{table._cache.cols[hidden[0]].ast_repr()}`\n"
+                "hint: only selected columns are collected; `ungroup` the table or keep the grouping "
+                "columns selected."
+            )
+        new = new >> group_by(*(new._cache.cols[uid] for uid in table._cache.partition_by))
 
     return new
 
